@@ -58,7 +58,8 @@ func ZZ_C13_EveryRouteProtected() {
 	// both orders are explored
 	lateFlag := vx.Choice("flagSetAfterRouterIsBuilt", 2) == 1
 	ctx.OAuth2Required = !lateFlag
-	ctx.NrfCertPem = "nrf.pem"
+	// the path of the NRF certificate is an optional configuration member
+	ctx.NrfCertPem = []string{"nrf.pem", ""}[vx.Choice("nrfCertPem", 2)]
 	app := &zzApp{cfg: &factory.Config{Configuration: &factory.Configuration{ServiceNameList: list}}, ctx: ctx, p: &processor.Processor{}}
 	s := &Server{ServerChf: app}
 	router := newRouter(s)
